@@ -225,6 +225,9 @@ def do_op(obj, tok, case):
             if tok == "X":
                 obj.cache_clear()
                 return "ok"
+            if tok == "cs":
+                # the memoisation key of the derived series (the counter `_mut_window`)
+                return ",".join(str(int(x)) for x in obj.__cache_state__())
             if tok == "o":
                 return enc_mat(obj.observable())
             if tok == "g":
@@ -719,6 +722,12 @@ def gen_case(ctx, rng, exact, quick):
             c = rng.randrange(1, T + 1)
     tstep = rng.choice([0.25, 0.5, 1.0, 1.5])
     t0 = rng.choice([0.0, 0.0, -3.0, 10.5, 1948.0])
+    if rng.random() < 0.12:
+        # huge (still float32-exact) time stamps, e.g. hours since a distant epoch: neighbouring
+        # bounds differ by far less than 1e-5 relative -- the coinciding-bounds test must be exact
+        t0, tstep = rng.choice([(2.0 ** 20, tstep), (-2.0 ** 20, tstep), (2.0 ** 22, 1.0),
+                                (2.0 ** 23, 2.0)])
+        ctx.count("time-axis:huge-stamps")
     time, t = [], t0
     for _ in range(T):
         time.append(t)
@@ -816,6 +825,8 @@ def gen_case(ctx, rng, exact, quick):
             ctx.count("op:shuffled_anomaly")
         if climate and rng.random() < 0.1:
             qs.append("X")
+        if climate and rng.random() < 0.3:
+            qs.append("cs")
         return qs
 
     ops += some_queries()
@@ -914,6 +925,24 @@ def edge_cases():
                     ops=["im=0", "im=-1,1", "am=11", "im=12", "pi", "W=1/4,181,0,0,0,0", "im=0,11",
                          "am=-12", "W=1/4,90,0,0,0,0", "im=3", "am=3", "pm", "sp=359,-360", "sp=360"]))
     out.append(dict(base, c=7, time=t12, obs=[[float(i)] * 3 for i in range(26)], ops=["im=1", "am=1"]))
+    # round 3: the cache counter along histories with repeated global restores (with and
+    # without a constructor window), and huge time stamps with neighbouring bounds
+    hs3 = [
+        ["cs", "an", "pm", "G", "cs", "an", W, "cs", "an", "pm", "G", "cs", "an", "G", "cs", W, "cs", "an"],
+        ["cs", "an", "W=10,11,0,0,0,0", "cs", "an", "G", "cs", "Wc", "cs", "an", "N", "cs", "an", "G", "cs"],
+    ]
+    for h in hs3:
+        for init in ("G", W):
+            for flag in (0, 1):
+                out.append(dict(base, init=init, flag=flag, ops=list(h)))
+    for t0, st in ((2.0 ** 20, 0.25), (2.0 ** 22, 1.0), (-2.0 ** 20, 0.5), (2.0 ** 23, 2.0)):
+        tt = [t0 + st * k for k in range(7)]
+        e = lambda k: enc_num(t0 + st * k)      # noqa: E731
+        out.append(dict(base, time=tt, ops=[
+            f"W={e(1)},{e(2)},0,0,0,0", "o", "g", "w", "an", f"W={e(3)},{e(3)},0,0,0,0", "o", "g",
+            f"W={enc_num(t0 + st * 1.5)},{e(4)},0,5,0,5", "o", "g", "pm", "Wc", "o",
+            f"W={e(5)},{e(6)},0,0,0,0", "o", "an", "G", "o"], gdtype="float32", btype="np64",
+            scale=(10, 3)))
     return out
 
 
@@ -987,6 +1016,8 @@ def run(ctx):
             if piece.startswith("raise:"):
                 ctx.count("outcome:" + piece)
 
+    float_division(ctx, rng)
+
     model = common.driver(ctx.pid, reqs)
     bad = [i for i in range(len(reqs))
            if not same(model[i], impl[i], *tol_of(cases[i][0], exacts[i]))]
@@ -1005,6 +1036,58 @@ def run(ctx):
         "\n".join(f"{reqs[i][:300]} :: {first_diff(i)}" for i in bad[:5]))
     ctx.extra["requests_compared"] = len(reqs)
     ctx.extra["operations_compared"] = sum(len(c["ops"]) + 1 for c, _ in cases)
+
+
+def float_division(ctx, rng):
+    """`range_years = int(T / time_cycle)`: the model's IEEE evaluation (`rangeYearsF`, proved
+    equal to `T // c` below 2^53) against the *source expression* of `phase_indices`, compiled
+    from the current tree and evaluated by CPython -- also beyond 2^53, where the two differ"""
+    import ast
+    import os
+    import types
+    path = os.path.join(common.REPO, "src/pyunicorn/climate/climate_data.py")
+    expr = None
+    for n in ast.walk(ast.parse(open(path).read())):
+        if isinstance(n, ast.FunctionDef) and n.name == "phase_indices":
+            for st in ast.walk(n):
+                if isinstance(st, ast.Assign) and ast.unparse(st.targets[0]) == "range_years":
+                    expr = compile(ast.Expression(st.value), path, "eval")
+    if expr is None:
+        ctx.obligation("float division: `range_years = ...` found in phase_indices", "correspondence",
+                       False, "assignment not found")
+        return
+    pairs = [(7, 3), (1, 1), (0, 5), (2 ** 53 - 1, 3), (2 ** 53 + 1, 1), (2 ** 53 - 1, 1),
+             (2 ** 53 + 3, 2), (3 * 2 ** 52 + 1, 3), (2 ** 54 - 1, 1), (2 ** 60 + 12345, 360),
+             (2 ** 53 - 5, 360), (2 ** 53 - 5, 12)]
+    for _ in range(400):
+        c = rng.choice([1, 2, 3, 5, 7, 12, 13, 360, 365, rng.randrange(1, 10 ** 6)])
+        r = rng.random()
+        if r < 0.4:
+            T = rng.randrange(0, 10 ** 6)
+        elif r < 0.7:
+            # just below a multiple of the cycle, close to 2^53: the quotient lies 1/c below an integer
+            T = max(0, (rng.randrange(2 ** 50, 2 ** 53) // c) * c - rng.choice([0, 1, 2]))
+        else:
+            T = rng.randrange(2 ** 52, 2 ** 56)
+        pairs.append((T, c))
+    impl, beyond, differ = [], 0, 0
+    for T, c in pairs:
+        stub = types.SimpleNamespace(time_cycle=c, grid=types.SimpleNamespace(
+            grid_size=lambda T=T: {"time": T, "space": 1}))
+        v = eval(expr, {"int": int, "np": np}, {"self": stub})    # noqa: S307 (the source's expression)
+        impl.append(f"{int(v)} {T // c}")
+        beyond += T >= 2 ** 53
+        differ += int(v) != T // c
+        if T < 2 ** 53 and int(v) != T // c:
+            ctx.fail({"class": "ClimateData", "method": "phase_indices", "kind": "range_years"},
+                     f"int(T / c) = {int(v)} but T // c = {T // c} for T = {T} < 2^53, c = {c}",
+                     {"T": T, "c": c})
+    model = common.driver(ctx.pid, [f"ry {T} {c}" for T, c in pairs])
+    bad = [f"T={T} c={c}: model={m} impl={i}" for (T, c), m, i in zip(pairs, model, impl) if m != i]
+    ctx.obligation(f"correspondence: IEEE model of `int(T / time_cycle)` == the source expression "
+                   f"evaluated by CPython ({len(pairs)} pairs, {beyond} beyond 2^53, "
+                   f"{differ} where it is not T // c)", "correspondence", not bad, "\n".join(bad[:5]))
+    ctx.count("float-division:pairs", len(pairs))
 
 
 class _Probe:
